@@ -53,7 +53,11 @@ GUARD_CALLS = [
      ]),
     ("copy_chunk_unchecked@copy_chunked_within", Z + "inflate::writer::Writer::copy_chunked_within",
      r"Writer::copy_chunk_unchecked$", 1, [
-        P_(rel="Lt", lo_names={"N", "current", "length"}, ops={"Add"}, hi_names={"capacity"}),
+        # `current` and `capacity` are locals initialised from self.filled / self.buf.len(): either spelling
+        [P_(rel="Lt", lo_names={"N", "current", "length"}, ops={"Add"}, hi_names={"capacity"}),
+         P_(rel="Lt", lo_names={"N", "filled", "length"}, ops={"Add"}, hi_calls={"WeakSliceMut::len"}),
+         P_(rel="Lt", lo_names={"N", "filled", "length"}, ops={"Add"}, hi_names={"capacity"}),
+         P_(rel="Lt", lo_names={"N", "current", "length"}, ops={"Add"}, hi_calls={"WeakSliceMut::len"})],
      ]),
 ]
 
@@ -94,7 +98,7 @@ def guard_calls(ck, P, only=None):
         ck.floor("GUARD/" + inst, len(calls), floor)
         for i, c in enumerate(calls):
             ss = shape.dominating_sigs(fn, c.bb)
-            missing = [p for p in pats if not any(sig.match(s, p) for s in ss)]
+            missing = [p for p in pats if not any(sig.match(s, q) for s in ss for q in (p if isinstance(p, list) else [p]))]
             ck.call_sites += 1
             ck.decide(not missing, "GUARD/unchecked-op", "%s#%d" % (inst, i),
                       "dominated by " + "; ".join(mir.atom_str(s.atom, fn)[:70] for s in ss[:3]),
@@ -148,9 +152,16 @@ def loop_backedge_guard(ck, P, only=None):
 
 
 def who_callers(ck, P):
+    from .. import inline
     for rx, allowed, floor in WHO_CALLERS:
         r = re.compile(rx)
         n = 0
+        # a listed caller that has been inlined away hands its role to the functions that used to call it
+        allowed = set(allowed)
+        for k_ in list(allowed):
+            if k_ not in P.fns and inline.is_known(k_):
+                allowed |= set(inline.frozen_callers(k_))
+        floor = min(floor, 1) if any(k_ not in P.fns for k_ in allowed) else floor
         for f in P.fns.values():
             for c in f.live_calls():
                 if c.callee and r.search(c.callee):
